@@ -1,0 +1,135 @@
+//! History reads and delegated authority never answer more than the caller's current authority:
+//! the chronology of an unreadable element, reads bound to the past by a snapshot token, and
+//! re-delegations issued by a delegate whose own status changed.
+
+use anda_cognitive_nexus::{
+    CognitiveNexus, ElementId,
+    governance::{
+        AuthContext, SYSTEM_PRINCIPAL,
+        rows::{AuthorityConstraints, principal_class, status},
+        store::{DelegationDraft, GovernanceStore, GrantDraft, PrincipalDraft, delegation_id},
+    },
+    nexus::{DEFAULT_SPACE, Session},
+    schema::{PackageState, SchemaLock, SchemaPackage},
+};
+use anda_db::database::{AndaDB, DBConfig};
+use anda_kip::{Executor, Request, Response, TopLevelStatus};
+use object_store::memory::InMemory;
+use serde_json::json;
+use std::sync::Arc;
+
+async fn stocked(name: &str) -> CognitiveNexus {
+    let db = AndaDB::connect(
+        Arc::new(InMemory::new()),
+        DBConfig {
+            name: name.to_string(),
+            description: "governance probe".to_string(),
+            ..Default::default()
+        },
+    )
+    .await
+    .unwrap();
+    let nexus = CognitiveNexus::connect(Arc::new(db)).await.unwrap();
+    nexus
+        .install_package(
+            &SchemaPackage::parse(anda_cognitive_nexus::profiles::COGNITIVE_MEMORY).unwrap(),
+            "test",
+        )
+        .await
+        .unwrap();
+    let mut lock = SchemaLock::default();
+    lock.packages
+        .insert("kip://profiles/cognitive-memory".into(), "2.0.0".into());
+    lock.states.insert(
+        "kip://profiles/cognitive-memory".into(),
+        PackageState::Active,
+    );
+    nexus.activate_schema(DEFAULT_SPACE, lock).await.unwrap();
+    nexus
+}
+
+async fn agent(gov: &GovernanceStore, id: &str) -> String {
+    gov.ensure_principal(PrincipalDraft {
+        principal_id: id.to_string(),
+        principal_class: principal_class::AGENT.to_string(),
+        display_name: id.to_string(),
+        auth_provider: "test".to_string(),
+        auth_subject: id.to_string(),
+    })
+    .await
+    .unwrap()
+    .principal_id
+}
+
+async fn run_as(session: &Session, command: &str) -> Response {
+    let request = Request::single(command);
+    let parsed = anda_kip::parse_kip(command).unwrap_or_else(|err| panic!("{command}\n{err}"));
+    session
+        .execute(parsed, &request, &request.operations[0])
+        .await
+}
+
+async fn classify(owner: &Session, concept: u64, label: &str) {
+    owner
+        .classify(
+            DEFAULT_SPACE,
+            ElementId::new(anda_kip::ElementKind::Concept, concept),
+            label,
+        )
+        .await
+        .unwrap();
+}
+
+/// `HISTORY ELEMENT <id>` of an element the caller may not read answers like one that was
+/// never written - also when a transaction wrote it beside an element the caller may read.
+#[tokio::test]
+async fn the_chronology_of_an_unreadable_element_is_empty() {
+    let nexus = stocked("gov_history_element").await;
+    let owner = nexus.system_session();
+    let made = run_as(
+        &owner,
+        r#"MUTATE {
+            CREATE CONCEPT ?a { TYPE "Person" NAME "Open Half" }
+            CREATE CONCEPT ?b { TYPE "Person" NAME "Sealed Half" }
+        }"#,
+    )
+    .await; // C-1, C-2 in ONE transaction
+    assert_eq!(made.status, TopLevelStatus::Succeeded);
+    classify(&owner, 1, "public").await;
+    classify(&owner, 2, "secret").await;
+
+    let gov = nexus.governance();
+    let reader = agent(gov, "kip:principal:reader").await;
+    gov.create_grant(
+        GrantDraft {
+            space_id: DEFAULT_SPACE.into(),
+            grantee_principal: reader.clone(),
+            actions: vec!["read".into(), "read_history".into()],
+            constraints: AuthorityConstraints {
+                max_classification: "public".into(),
+                ..Default::default()
+            },
+            ..Default::default()
+        },
+        SYSTEM_PRINCIPAL,
+    )
+    .await
+    .unwrap();
+    let session = nexus.session(AuthContext::principal(&reader));
+
+    let never_written = run_as(&session, r#"HISTORY ELEMENT "C-900""#).await;
+    assert_eq!(never_written.status, TopLevelStatus::Succeeded);
+    assert_eq!(never_written.first_result().unwrap(), &json!([]));
+
+    let sealed = run_as(&session, r#"HISTORY ELEMENT "C-2""#).await;
+    assert_eq!(sealed.status, TopLevelStatus::Succeeded);
+    assert_eq!(
+        sealed.first_result().unwrap(),
+        &json!([]),
+        "the reader may not read C-2, yet its chronology lists the transaction that wrote it \
+         beside C-1 (with an empty change list): C-2 exists, and this is when it was written"
+    );
+}
+
+/// A read bound to the past by `read.snapshot_token` is a historical read: it needs
+/// `read_history` exactly as `AS OF` does.
